@@ -551,6 +551,7 @@ def location_addressing(F):
     r = RuleResult("R-LOC-ADDRESS",
                    "in every iterator / modifier method that takes a `loc: Location`, the module, function and instruction that are touched are addressed by the fields of that `loc` (never by the cursor)")
     n = 0
+    n_deleg = [0]
     for fn in F.fns:
         if fn.get("body") is None or not (fn.get("self_adt") or "").endswith(("ComponentIterator", "ModuleIterator", "FunctionModifier")):
             continue
@@ -650,7 +651,167 @@ def location_addressing(F):
                 r.violate("%s | %s" % (fn["path"], want), F.loc(fn, x),
                           "%s takes a location but addresses the %s by %s instead of by the location's %s: an edit aimed at another place lands where the cursor is" % (
                               fn["name"], {"mod_idx": "module", "func_idx": "function", "instr_idx": "instruction"}[want], "`%s` of the location" % src if src else "a value not taken from the location", want))
+        # a location-addressed method does not hand its work to a cursor-addressed method of the same type: a
+        # `self.m(..)` whose `m` takes no location and lets the cursor or the function-level mode pick the place
+        # (`inject`, the opcode helpers) sends the edit wherever that state points, whatever `loc` says
+        adt_ = fn.get("self_adt")
+        for x in walk(fn["body"]):
+            if x.get("k") != "MethodCall" or place_path(x["recv"]) != "self":
+                continue
+            why = _cursor_addressed(F, x.get("inst") or x.get("callee"), adt_)
+            n_deleg[0] += 1
+            r.ob(why is None, {"fn": fn["path"], "delegates_to": x["method"], "cursor_addressed": why})
+            if why:
+                r.violate("%s | delegates to cursor-addressed %s" % (fn["path"], x["method"]), F.loc(fn, x),
+                          "%s takes a location but hands the edit to `self.%s(..)`, which has no location parameter and chooses the place from `%s`: with a function-level mode selected, or the cursor elsewhere, the edit does not land at the location named" % (
+                              fn["name"], x["method"], why))
         if touched:
             r.analysed.append(fn["path"])
     r.count("addressed_sites", n)
+    r.count("self_delegations", n_deleg[0])
+    return r
+
+
+def _cursor_addressed(F, callee, adt, depth=0):
+    """the state (`self.<cursor field>` or the function-level `self.instr_flag.current_mode`) that lets a method of `adt`
+    without a location parameter choose the place it edits; None if it reads none (or is not a method of `adt`)"""
+    if not callee or depth > 2:
+        return None
+    fs = F.by_path.get(callee) or []
+    if len(fs) != 1:
+        return None
+    g = fs[0]
+    if g.get("body") is None or g.get("self_adt") != adt:
+        return None
+    if any((pm.get("ty") or "").endswith("Location") for pm in g.get("params", [])):
+        return None
+    for y in walk(g["body"]):
+        if y.get("k") == "Field":
+            pp = place_path(y) or ""
+            if pp.startswith("self.") and (y["name"] in ("instr_idx", "curr_idx", "curr_instr", "curr_mod", "curr_func") or pp == "self.instr_flag.current_mode"):
+                return pp
+    for y in walk(g["body"]):
+        if y.get("k") == "MethodCall" and place_path(y["recv"]) == "self":
+            w = _cursor_addressed(F, y.get("inst") or y.get("callee"), adt, depth + 1)
+            if w:
+                return w
+    return None
+
+
+def skip_membership(F):
+    """R-SKIP-MEMBERSHIP: the skip configuration is a caller-supplied list used as a *set*: the only question the sub-iterators
+    may ask of it is membership (`contains`, `contains_key`, `get`).  Its length says nothing about how many of a module's
+    functions it names (duplicates, ids of other modules), so comparing the length of the raw list with anything decides
+    visiting on a quantity unrelated to membership."""
+    from vlib.facts import binding_site
+    r = RuleResult("R-SKIP-MEMBERSHIP",
+                   "in the sub-iterators the caller's raw skip list is only asked for membership: the length of the raw list (or of a copy of it) is never an operand of a comparison")
+    PASS = ("clone", "cloned", "unwrap", "unwrap_or_default", "get", "contains_key", "to_vec", "as_slice", "as_ref", "iter", "copied", "collect", "to_owned", "into_iter", "expect", "unwrap_or", "map", "unwrap_or_else", "into", "borrow", "deref")
+    n_reads = 0
+    for adt in ("ModuleSubIterator", "ComponentSubIterator"):
+        for fn in F.find_fns(self_adt=adt):
+            if fn.get("body") is None:
+                continue
+            r.analysed.append(fn["path"])
+
+            def raw(e, depth=0):
+                """e is the raw skip list (or a copy of it / of one module's entry)"""
+                e = peel(e)
+                if depth > 4 or not isinstance(e, dict):
+                    return False
+                if e.get("k") == "Field":
+                    return e["name"] == "skip_funcs"
+                if e.get("k") == "Path" and e.get("res", {}).get("r") == "local":
+                    pm = [p for p in fn.get("params", []) if p["pat"].get("hid") == e["res"].get("hid")]
+                    if pm:
+                        return fn["name"] == "new" and pm[0]["pat"].get("name") in ("skip_funcs", "skips")
+                    _p, scr, _k = binding_site(fn["body"], e["res"]["hid"])
+                    return scr is not None and raw(scr, depth + 1)
+                if e.get("k") == "MethodCall":
+                    return e["method"] in PASS and raw(e["recv"], depth)
+                if e.get("k") == "Match":
+                    return any(raw(a["body"], depth) for a in e["arms"])
+                if e.get("k") == "If":
+                    return raw(e["then"], depth) or ("else" in e and raw(e["else"], depth))
+                if e.get("k") == "Block" and e.get("expr") is not None:
+                    return raw(e["expr"], depth)
+                return False
+            for x in walk(fn["body"]):
+                if x.get("k") == "Field" and x["name"] == "skip_funcs":
+                    n_reads += 1
+                if x.get("k") == "Binary" and x.get("op") in ("<", "<=", ">", ">=", "==", "!="):
+                    for side in ("a", "b"):
+                        o = peel(x[side])
+                        if o.get("k") == "MethodCall" and o["method"] in ("len", "count") and raw(o["recv"]):
+                            r.ob(False, {"fn": fn["path"], "compares": snippet(_repo(), fn["file"], x["sp"])})
+                            r.violate("%s | skip-list length compared" % fn["path"], F.loc(fn, x),
+                                      "%s::%s decides on `%s`: the length of the caller's skip list is not the number of this module's functions it names (duplicates, ids the module does not have), so functions that were not skipped can be passed over — or skipped ones visited" % (
+                                          adt, fn["name"], snippet(_repo(), fn["file"], x["sp"])))
+    # a membership test decides about the function it is asked about; "is anything left to visit" is a search over the
+    # remaining functions.  A single test of the element at `curr_idx + k`, outside any loop or search combinator, is a
+    # one-element look-ahead standing in for that search.
+    SEARCH = ("take_while", "skip_while", "any", "all", "find", "position", "filter", "find_map", "filter_map", "rposition", "rfind")
+    n_tests = 0
+    for fn in F.find_fns(self_adt="ModuleSubIterator"):
+        if fn.get("body") is None:
+            continue
+
+        def ahead(e):
+            """`metadata.get(curr_idx + k)` / `metadata[curr_idx + k]`, k a literal: the element k places after the cursor"""
+            for y in walk(e):
+                ix = None
+                if y.get("k") == "Index" and (place_path(y["base"]) or "").endswith("metadata"):
+                    ix = y["index"]
+                elif y.get("k") == "MethodCall" and y["method"] == "get" and (place_path(y["recv"]) or "").endswith("metadata") and y.get("args"):
+                    ix = y["args"][0]
+                if ix is not None:
+                    ix = peel(ix)
+                    if ix.get("k") == "Binary" and ix.get("op") == "+" and any((place_path(ix[s_]) or "").endswith("curr_idx") for s_ in ("a", "b")) \
+                            and any(peel(ix[s_]).get("k") == "Lit" for s_ in ("a", "b")):
+                        return y
+            return None
+
+        def rec(node, in_search, peeked):
+            nonlocal n_tests
+            if isinstance(node, list):
+                for v in node:
+                    rec(v, in_search, peeked)
+                return
+            if not isinstance(node, dict):
+                return
+            k = node.get("k")
+            if k == "Loop":
+                in_search = True
+            if k == "MethodCall":
+                if node["method"] == "contains" and (place_path(node["recv"]) or "").endswith("skip_funcs"):
+                    n_tests += 1
+                    arg_peek = peeked
+                    for y in walk(node.get("args") or []):
+                        if y.get("k") == "Path" and y.get("res", {}).get("r") == "local":
+                            _p, scr, _k = binding_site(fn["body"], y["res"]["hid"])
+                            if scr is not None and ahead(scr) is not None:
+                                arg_peek = True
+                    if ahead(node.get("args") or []) is not None:
+                        arg_peek = True
+                    ok = in_search or not arg_peek
+                    r.ob(ok, {"fn": fn["path"], "membership_test": "in a loop/search" if in_search else ("of a look-ahead element" if arg_peek else "of a given function")})
+                    if not ok:
+                        r.violate("%s | one-element look-ahead" % fn["path"], F.loc(fn, node),
+                                  "ModuleSubIterator::%s asks the skip list about the single element after the cursor, outside any loop or search: when that one is skipped and a later one is not, the answer is wrong and the remaining functions are never visited" % fn["name"])
+                rec(node["recv"], in_search, peeked)
+                sub_search = in_search or node["method"] in SEARCH
+                sub_peek = peeked or (ahead(node["recv"]) is not None)
+                rec(node.get("args") or [], sub_search, sub_peek)
+                return
+            for kk, v in node.items():
+                if isinstance(v, (dict, list)):
+                    rec(v, in_search, peeked)
+        rec(fn["body"], False, False)
+    r.count("membership_tests", n_tests)
+    if n_tests < 1:
+        raise CheckError("no membership test of the function skip list found in ModuleSubIterator (anchor moved?)")
+    r.ob(True, {"skip_list_reads": n_reads})
+    r.count("skip_list_reads", n_reads)
+    if n_reads < 4:
+        raise CheckError("skip-list reads not found in the sub-iterators (anchor moved?): %d" % n_reads)
     return r
